@@ -212,9 +212,9 @@ def c12_configs():
     from skactiveml.regressor import (NadarayaWatsonRegressor, NICKernelRegressor, SklearnNormalRegressor,
                                       SklearnRegressor)
 
-    def c(name, make, task, weights=True, order_free=True, min_labeled=0, reason=""):
+    def c(name, make, task, weights=True, order_free=True, min_labeled=0, reason="", ml=np.nan):
         return dict(name=name, make=make, task=task, weights=weights, order_free=order_free,
-                    min_labeled=min_labeled, reason=reason)
+                    min_labeled=min_labeled, reason=reason, ml=ml)
 
     return [
         c("SklearnClassifier(GaussianNB)",
@@ -249,6 +249,27 @@ def c12_configs():
           lambda: NadarayaWatsonRegressor(metric_dict={"gamma": 0.25}), "reg"),
         c("AnnotatorLogisticRegression",
           lambda: AnnotatorLogisticRegression(classes=[0, 1], n_annotators=2, random_state=0), "multi"),
+        # the same estimators with a reserved number as the missing label (the labeled/unlabeled split must use
+        # the configured sentinel everywhere, not the package default)
+        c("SklearnRegressor(LinearRegression,missing_label=-999)",
+          lambda: SklearnRegressor(LinearRegression(), missing_label=-999.0), "reg", ml=-999.0),
+        c("SklearnNormalRegressor(BayesianRidge,missing_label=-999)",
+          lambda: SklearnNormalRegressor(BayesianRidge(), missing_label=-999.0), "reg", ml=-999.0),
+        c("NICKernelRegressor(gamma=0.5,missing_label=-999)",
+          lambda: NICKernelRegressor(metric_dict={"gamma": 0.5}, missing_label=-999.0), "reg", ml=-999.0),
+        c("NadarayaWatsonRegressor(gamma=0.25,missing_label=-999)",
+          lambda: NadarayaWatsonRegressor(metric_dict={"gamma": 0.25}, missing_label=-999.0), "reg", ml=-999.0),
+        c("SklearnClassifier(GaussianNB,missing_label=-1)",
+          lambda: SklearnClassifier(GaussianNB(), classes=[0, 1], missing_label=-1, random_state=0), "clf", ml=-1.0),
+        c("SklearnClassifier(DecisionTreeClassifier,missing_label=-1)",
+          lambda: SklearnClassifier(DecisionTreeClassifier(random_state=0), classes=[0, 1], missing_label=-1,
+                                    random_state=0), "clf", ml=-1.0),
+        c("ParzenWindowClassifier(gamma=0.5,missing_label=-1)",
+          lambda: ParzenWindowClassifier(classes=[0, 1], metric="rbf", metric_dict={"gamma": 0.5},
+                                         n_neighbors=None, missing_label=-1, random_state=0), "clf", ml=-1.0),
+        c("AnnotatorLogisticRegression(missing_label=-1)",
+          lambda: AnnotatorLogisticRegression(classes=[0, 1], n_annotators=2, missing_label=-1, random_state=0),
+          "multi", ml=-1.0),
         c("AnnotatorLogisticRegression(no sample_weight)",
           lambda: AnnotatorLogisticRegression(classes=[0, 1], n_annotators=2, random_state=0), "multi",
           weights=False, reason="sample_weight=None variant"),
@@ -296,8 +317,13 @@ def _pair_job(arg):
             p, dd = observe(obj, owned_of_clone(obj, owned), ids)
             events.append({"ev": "Fresh", "pids": p, "dids": dd})
         X, y, w = tab.data(D, task, n_annot)
+        ml = cfg["ml"]
+
+        def sent(a, ml=ml):
+            return a if ml != ml else np.where(np.isnan(a), ml, a)
+
         use_w = cfg["weights"] and not ones_as_none
-        calls.append({"X": X.tolist(), "y": y.tolist(), "sample_weight": w.tolist() if use_w else None})
+        calls.append({"X": X.tolist(), "y": sent(y).tolist(), "sample_weight": w.tolist() if use_w else None})
         if prelude and k == 0:
             # the user's arrays live through a pool loop: the labels of D were revealed one after the other
             # (in a seeded order) and a throw-away model was fitted at every stage on the SAME X / w arrays;
@@ -309,13 +335,13 @@ def _pair_job(arg):
             for r in order_r[:-1]:
                 y_stage[r] = y[r]
                 try:
-                    train(clone(proto), "Fit", X, y_stage.copy(), w, use_w)
+                    train(clone(proto), "Fit", X, sent(y_stage), w, use_w)
                 except Exception:
                     pass
                 stages.append(int(r))
             calls[-1]["labels_revealed_before_in_row_order"] = stages
         try:
-            train(obj, "Fit", X, y, w, use_w)
+            train(obj, "Fit", X, sent(y), w, use_w)
             n_eval += 1
             pred = predictions(obj, task)
             raised = None
@@ -396,7 +422,7 @@ def main(tier="quick", seed=0):
             seen.add(k)
             pools.setdefault(len(c["d"][0][1]), []).append((c["d"], c["e"], relation_tags(c["d"], c["e"])))
     cfgs = c12_configs()
-    per_cfg = 160 if quick else 2500
+    per_cfg = 110 if quick else 2000
     jobs = []
     for ci, cfg in enumerate(cfgs):
         n_annot = 2 if cfg["task"] == "multi" else 1
